@@ -322,7 +322,7 @@ func judgeYAML(c yamlCase, note func(r yamlRef, w want, known string)) string {
 			rec.Class("yaml/library-index-disagrees-with-its-line-column")
 			w.Pos = -1
 		}
-		if knownClass("C17/yaml-char-index") && !isASCII(data[:min(start+len(text), len(data))]) {
+		if knownClass("C17/yaml-char-index") && !isASCII(runePrefix(data, r.index)) {
 			known = "C17/yaml-char-index"
 		} else if knownClass("C17/tab-column") && w.Pos >= 0 && bytes.IndexByte(text[:pos], '\t') >= 0 {
 			known = "C17/tab-column"
@@ -402,4 +402,14 @@ func isASCII(b []byte) bool {
 		}
 	}
 	return true
+}
+
+// runePrefix returns the first n characters of b.
+func runePrefix(b []byte, n int) []byte {
+	i := 0
+	for ; n > 0 && i < len(b); n-- {
+		_, k := utf8.DecodeRune(b[i:])
+		i += k
+	}
+	return b[:i]
 }
